@@ -3,7 +3,7 @@
 (* with either (labels are not unique: twins, ligand atoms).  Up to MaxDet       *)
 (* determinants per list, also several towards the same partner.                 *)
 EXTENDS Coupling, Json
-CONSTANTS MaxDet, Emit
+CONSTANTS MaxDet, Emit, EqualLabels
 VARIABLES lab, det, orig, step
 vars == <<lab, det, orig, step>>
 G == 1..3
@@ -14,7 +14,9 @@ SeqsUpTo(S, n) == UNION {[1..k -> S] : k \in 0..n}
 (* determinants group g can hold: towards another group, carrying that group's label *)
 DetsFor(l, g) == {d \in Dets : d.to # g /\ d.lab = l[d.to]}
 Empty == [cb |-> <<>>, sc |-> <<>>]
-Init == /\ lab \in [G -> Labels] /\ lab[1] # lab[2]     \* the probed pair has distinct labels (the loop breaks on equal ones)
+(* protein groups with equal labels compare equal and are never probed; hetero groups with equal labels (two copies of
+   a ligand in one chain) differ in residue number and ARE probed: EqualLabels admits that case *)
+Init == /\ lab \in [G -> Labels] /\ (EqualLabels \/ lab[1] # lab[2])
         /\ \E c1 \in SeqsUpTo(DetsFor(lab, 1), MaxDet), s1 \in SeqsUpTo(DetsFor(lab, 1), 1) :
               det = [g \in G |-> IF g = 1 THEN [cb |-> c1, sc |-> s1] ELSE Empty]
         /\ orig = det /\ step = -1
